@@ -62,6 +62,7 @@ def rewrite_for_gen(src, gen):
     the import paths rewritten textually."""
     if gen == "v2":
         return src
+    src = src.replace("github.com/PapaCharlie/go-restli/v2/restlidata/generated/com/linkedin/restli/common", "github.com/PapaCharlie/go-restli/restlidata")
     return src.replace("github.com/PapaCharlie/go-restli/v2/", "github.com/PapaCharlie/go-restli/") \
               .replace('"github.com/PapaCharlie/go-restli/v2"', '"github.com/PapaCharlie/go-restli"')
 
